@@ -37,6 +37,7 @@ pub(crate) type Cluster = Arc<ClusterImpl>;
 type ClusterNode = Arc<ClusterNodeImpl>;
 type ResultNotifier = tokio::sync::oneshot::Sender<ServerResult<(u64, ClusterActionResult)>>;
 type ClusterResponseReceiver = UnboundedReceiver<(Request<ClusterAction>, Response)>;
+type ExecutorSender = UnboundedSender<(Log<ClusterAction>, Option<ResultNotifier>)>;
 
 pub(crate) struct ClusterNodeImpl {
     client: ReqwestClient,
@@ -350,25 +351,25 @@ pub(crate) struct ClusterStorage {
     index: u64,
     term: u64,
     commit: u64,
-    db: ServerDb,
     cluster_log: ClusterLog,
-    db_pool: DbPool,
+    executor: ExecutorSender,
 }
 
 impl ClusterStorage {
     async fn new(db: ServerDb, cluster_log: ClusterLog, db_pool: DbPool) -> ServerResult<Self> {
         let (index, term, commit) = cluster_log.cluster_log().await?;
         let logs = cluster_log.logs_unexecuted(commit).await?;
+        let notifier = tokio::sync::broadcast::channel(100).0;
+        let executor = Self::start_executor(db, db_pool, cluster_log.clone(), notifier.clone());
 
         let mut storage = Self {
             result_notifiers: HashMap::new(),
-            notifier: tokio::sync::broadcast::channel(100).0,
+            notifier,
             index,
             term,
             commit,
-            db,
             cluster_log,
-            db_pool,
+            executor,
         };
 
         for log in logs {
@@ -378,23 +379,40 @@ impl ClusterStorage {
         Ok(storage)
     }
 
-    async fn execute_log(&mut self, log: Log<ClusterAction>) -> ServerResult<()> {
-        let log_id = log.db_id.unwrap_or_default();
-        let db = self.db.clone();
-        let db_pool = self.db_pool.clone();
-        let cluster_log = self.cluster_log.clone();
-        let notifier = self.notifier.clone();
-        let result_notifier = self.result_notifiers.remove(&log_id);
+    // Committed logs must be applied one at a time and in log order on every
+    // node. A single worker task drains the queue that `execute_log` fills in
+    // commit order.
+    fn start_executor(
+        db: ServerDb,
+        db_pool: DbPool,
+        cluster_log: ClusterLog,
+        notifier: tokio::sync::broadcast::Sender<u64>,
+    ) -> ExecutorSender {
+        let (sender, mut receiver) = tokio::sync::mpsc::unbounded_channel::<(
+            Log<ClusterAction>,
+            Option<ResultNotifier>,
+        )>();
 
         tokio::spawn(async move {
-            let result = log.data.exec(db.clone(), db_pool).await;
-            let _ = notifier.send(log.index);
-            let _ = cluster_log.log_executed(log_id).await;
+            while let Some((log, result_notifier)) = receiver.recv().await {
+                let log_id = log.db_id.unwrap_or_default();
+                let result = log.data.exec(db.clone(), db_pool.clone()).await;
+                let _ = notifier.send(log.index);
+                let _ = cluster_log.log_executed(log_id).await;
 
-            if let Some(rs) = result_notifier {
-                let _ = rs.send(result.map(|r| (log.index, r)));
+                if let Some(rs) = result_notifier {
+                    let _ = rs.send(result.map(|r| (log.index, r)));
+                }
             }
         });
+
+        sender
+    }
+
+    async fn execute_log(&mut self, log: Log<ClusterAction>) -> ServerResult<()> {
+        let log_id = log.db_id.unwrap_or_default();
+        let result_notifier = self.result_notifiers.remove(&log_id);
+        self.executor.send((log, result_notifier))?;
 
         Ok(())
     }
